@@ -84,8 +84,8 @@ pub fn run(rep: &mut Report) {
     match tier {
         Tier::Quick => {
             rep.generated("P32E2 directed inputs (threshold^2, posit^2 +-2ulp, structured bits), exact oracle", 600_000, directed32, |&a, l| sqrt_slow::<P32E2>(a, l));
-            let off = rep.cfg.seed % 4;
-            rep.lattice("P32E2 every 4th pattern (offset = seed mod 4), fast oracle", 1 << 30, move |i, l| sqrt_fast::<P32E2>(i * 4 + off, l));
+            let off = rep.cfg.seed % 2;
+            rep.lattice("P32E2 every 2nd pattern (offset = seed mod 2), fast oracle", 1 << 31, move |i, l| sqrt_fast::<P32E2>(i * 2 + off, l));
         }
         Tier::Thorough => {
             rep.generated("P32E2 directed inputs (threshold^2, posit^2 +-2ulp, structured bits), exact oracle", 6_000_000, directed32, |&a, l| sqrt_slow::<P32E2>(a, l));
